@@ -75,20 +75,25 @@ ReplicaClauses(e) ==
 \* the hand the client believes it holds is that hand
 OfferClauses(e) ==
   IF "offers" \notin DOMAIN e.decs[1] THEN <<>>
-  ELSE [k \in 1..Len(e.decs) |->
-     LET b == e.boards[k]
-         d == e.decs[k]
-         c == T!ContractOf(b, d.calls)
-         bad == IF ~T!A!Done(T!FinalAuction(b, d.calls)) THEN {}   \* board not reached / stopped in the auction
+  ELSE LET Bad(k, held) ==
+             LET b == e.boards[k]
+                 d == e.decs[k]
+                 c == T!ContractOf(b, d.calls)
+             IN IF ~T!A!Done(T!FinalAuction(b, d.calls)) THEN {}   \* board not reached / stopped in the auction
                 ELSE IF T!PassedOutC(c) THEN {}
                 ELSE {j \in 1..Len(d.offers) :
                         LET p == T!PlayAfter(T!InitPlayOf(b, c), d.cards, j - 1)
                             h == p.hands[d.cards[j].seat]
-                        IN \/ SeqRange(d.offers[j].held) # h
-                           \/ SeqRange(d.offers[j].offered) # T!P!CurrentAvailable(p, h)}
-     IN <<"offered-playable-board" \o ToString(k) \o "@"
-            \o (IF bad = {} THEN "0" ELSE ToString(CHOOSE j \in bad : \A j2 \in bad : j <= j2)),
-          bad = {} /\ Len(d.offers) <= Len(d.cards) + 1>>]
+                        IN IF held THEN SeqRange(d.offers[j].held) # h
+                           ELSE SeqRange(d.offers[j].offered) # T!P!CurrentAvailable(p, h)}
+           First(S) == IF S = {} THEN "0" ELSE ToString(CHOOSE j \in S : \A j2 \in S : j <= j2)
+       IN [k \in 1..Len(e.decs) |->
+             \* C05: the hand the client believes it (or dummy) holds is the hand
+             <<"held-hand-board" \o ToString(k) \o "@" \o First(Bad(k, TRUE)), Bad(k, TRUE) = {}>>]
+          \o [k \in 1..Len(e.decs) |->
+             \* C06: what it offers to its playing system is the playable set
+             <<"offered-playable-board" \o ToString(k) \o "@" \o First(Bad(k, FALSE)),
+               Bad(k, FALSE) = {} /\ Len(e.decs[k].offers) <= Len(e.decs[k].cards) + 1>>]
 
 \* the decisions describe complete boards (every auction ended, 52 cards on
 \* every board that was not passed out): only then are the expected streams
